@@ -73,6 +73,14 @@ StatsOk(p) ==
     [] p.rule = "prefix" -> \A i \in 1..Len(p.statsA) : p.statsA[i].date <= p.cut =>
                                (i <= Len(p.statsB) /\ p.statsA[i] = p.statsB[i])
     [] OTHER -> TRUE
+\* (C08) the crop parameters a season runs with - its calendar in particular - are those a fresh run started on its planting date computes:
+\* the summary row of B's season and A's row of the same harvest date were produced with identical crop parameters
+Has0(r, f) == f \in DOMAIN r
+CropsOk(p) ==
+  IF p.rule # "seasonOffset" \/ ~Has0(p, "cropsA") \/ Len(p.cropsA) = 0 \/ Len(p.cropsB) = 0 THEN TRUE
+  ELSE \A i \in 1..Len(p.statsB) : \A j \in 1..Len(p.statsA) :
+          (p.statsA[j].date = p.statsB[i].date /\ p.statsA[j].season + 1 <= Len(p.cropsA) /\ p.statsB[i].season + 1 <= Len(p.cropsB))
+             => p.cropsA[p.statsA[j].season + 1] = p.cropsB[p.statsB[i].season + 1]
 \* shape: identical windows where the rule demands it; completion status
 ShapeOk(p) ==
   CASE p.rule \in {"identity", "ignoreZgw"} -> p.startA = p.startB /\ Len(p.rowsA) = Len(p.rowsB) /\ p.finishedA = p.finishedB
@@ -91,7 +99,7 @@ CallsOk(p) == IF ~Has(p, "calls") THEN TRUE
                      /\ c.nsteps = (IF c.cum >= p.T \/ c.k = 0 THEN p.T ELSE c.cum)
 
 Judge(p) == LET bad == BadDates(p) IN
-  [ok |-> bad = {} /\ StatsOk(p) /\ ShapeOk(p) /\ CallsOk(p), calls |-> CallsOk(p),
+  [ok |-> bad = {} /\ StatsOk(p) /\ ShapeOk(p) /\ CallsOk(p) /\ CropsOk(p), calls |-> CallsOk(p), crops |-> CropsOk(p),
    firstBad |-> IF bad = {} THEN 0 ELSE MinOf(bad),
    groups |-> IF bad = {} THEN {} ELSE DiffGroups(p, MinOf(bad)),
    nBad |-> Cardinality(bad), stats |-> StatsOk(p), shape |-> ShapeOk(p), compared |-> Cardinality(Dates(p))]
